@@ -22,6 +22,7 @@ TWFit == /\ Is("fit") /\ T.kind = "wrap"
                     "TrainsLikeDirect", l, [members |-> Ev.members])
          /\ Require(\A j \in 1 .. Len(Ev.members) : Ev.members[j].ws = Ev.ws, T.id, "FitParamsReachMembers", l,
                     [given |-> Ev.ws, members |-> Ev.members])
+         /\ Require(Ev.ft_equal, T.id, "FitTransformIsFitThenTransform", l, <<>>)
          /\ Require(Len(Ev.members) = T.nmembers, T.id, "TrainsLikeDirect", l, [got |-> Len(Ev.members), want |-> T.nmembers])
          /\ members' = Ev.members /\ UNCHANGED vars /\ Go
 MemberOut(j, x) == IF T.stub = "reg" THEN RegOut(members[j].ys, x)
